@@ -97,40 +97,56 @@ def run(ctx):
                        "5-byte sequences whose fifth byte has bits 4-6 set inconsistently (more than 32 significant bits, undefined in the spec) are excluded"]
     rng = ctx.rng("c03")
 
+    state = {"k": 0}
+
+    def stream(bs):
+        """the readers get whatever file object the caller has: a BytesIO, or (as DEX does for its own buffer) an io.BufferedReader - there the
+        number is placed so that it STRADDLES the reader's internal buffer boundary. -> (file object, offset of the number)"""
+        state["k"] += 1
+        if state["k"] % 3 == 0 and len(bs) >= 2:
+            size = 16 if state["k"] % 2 else io.DEFAULT_BUFFER_SIZE
+            pre = size - 1 - (state["k"] // 3) % (len(bs) - 1 if len(bs) > 1 else 1)     # boundary falls after the 1st .. (n-1)th byte
+            pre = max(0, pre)
+            f = io.BufferedReader(io.BytesIO(b"\x00" * pre + bs + b"\xAA\xAA"), buffer_size=size)
+            f.read(pre)
+            ctx.count("reads_through_BufferedReader_across_its_buffer_boundary")
+            return f, pre
+        return io.BytesIO(bs + b"\xAA\xAA"), 0
+
     def check_decode(bs, tag):
         bs = bytes(bs)
         # unsigned
         if in_domain_u(bs):
             want, n = ref_uleb(bs)
             for fn, off, name in ((dex.readuleb128, 0, "readuleb128"), (dex.readuleb128p1, -1, "readuleb128p1")):
-                f = io.BytesIO(bs + b"\xAA\xAA")
+                f, base = stream(bs)
                 ctx.ev()
                 ctx.count(name)
                 try:
                     got = fn(cm, f)
                 except Exception as e:
-                    ctx.violation(name + "-raises", "%s raises on a defined sequence" % name, {"bytes": bs, "exc": exc_str(e)})
+                    ctx.violation(name + "-raises", "%s raises on a defined sequence" % name, {"bytes": bs, "exc": exc_str(e), "stream": type(f).__name__})
                     continue
-                if got != want + off or f.tell() != n:
+                if got != want + off or f.tell() - base != n:
                     ctx.violation(name + "-value", "%s decodes to a different value or consumes a different length" % name,
-                                  {"bytes": bs, "got": got, "want": want + off, "consumed": f.tell(), "want_consumed": n})
+                                  {"bytes": bs, "got": got, "want": want + off, "consumed": f.tell() - base, "want_consumed": n, "stream": type(f).__name__, "offset_in_stream": base})
             canon = enc_uleb(want) == bs[:n]
             ctx.sig("u", n, canon, want.bit_length())
         else:
             ctx.count("excluded_unsigned")
         if in_domain_s(bs):
             want, n = ref_sleb(bs)
-            f = io.BytesIO(bs + b"\xAA\xAA")
+            f, base = stream(bs)
             ctx.ev()
             ctx.count("readsleb128")
             try:
                 got = dex.readsleb128(cm, f)
             except Exception as e:
-                ctx.violation("readsleb128-raises", "readsleb128 raises on a defined sequence", {"bytes": bs, "exc": exc_str(e)})
+                ctx.violation("readsleb128-raises", "readsleb128 raises on a defined sequence", {"bytes": bs, "exc": exc_str(e), "stream": type(f).__name__})
                 return
-            if got != want or f.tell() != n:
+            if got != want or f.tell() - base != n:
                 ctx.violation("readsleb128-value", "readsleb128 decodes to a different value or consumes a different length",
-                              {"bytes": bs, "got": got, "want": want, "consumed": f.tell(), "want_consumed": n})
+                              {"bytes": bs, "got": got, "want": want, "consumed": f.tell() - base, "want_consumed": n, "stream": type(f).__name__, "offset_in_stream": base})
             canon = enc_sleb(want) == bs[:n]
             ctx.sig("s", n, canon, want < 0, abs(want).bit_length())
         else:
